@@ -10,7 +10,10 @@ use crate::{
 };
 
 use indexmap::IndexSet;
+#[cfg(not(goml_verif))]
 use std::collections::HashMap;
+#[cfg(goml_verif)]
+use crate::verif_hash::HashMap;
 
 use super::goty;
 use super::runtime;
